@@ -6,7 +6,7 @@
    than the writer (or the specification encoder) produced at that position fails an assertion: the kinds ARE the grammar.
    Only for the translated unit (stubbed functions are listed in the obligation); REAL mode uses the real codecs. */
 #ifndef REAL
-enum { K_BYTE = 1, K_UINT, K_INT, K_2D, K_3D, K_GD, K_REAL };
+enum { K_BYTE = 1, K_UINT, K_INT, K_2D, K_3D, K_GD, K_REAL, K_REALP = K_REAL /* payload of a real whose type byte was read separately (property values): the same token in the model */ };
 #ifndef TOK_MAX
 #define TOK_MAX 64
 #endif
@@ -54,7 +54,7 @@ void _ZN5gdstk16oasis_write_realERNS_11OasisStreamEd(TokStream* s, double v) { t
 /* REAL mode: the same harness calls (tok_put of typed values) lay the file down as BYTES, encoded as the OASIS specification
    defines each kind - unsigned / signed integer, 2-, 3- and g-delta (form 1), real (type 7: IEEE double), strings as length +
    bytes - appended to the in-memory file 0 the real reader then opens through the wrapped stdio. Include after vfile.h. */
-enum { K_BYTE = 1, K_UINT, K_INT, K_2D, K_3D, K_GD, K_REAL };
+enum { K_BYTE = 1, K_UINT, K_INT, K_2D, K_3D, K_GD, K_REAL, K_REALP };
 static int tok_n, tok_k, tok_kind_error;
 static void tok_b(uint8_t b) { if (vf_files[0].len < VF_CAP) vf_files[0].data[vf_files[0].len++] = b; }
 static void tok_u(uint64_t v) { do { uint8_t b = (uint8_t)(v & 0x7f); v >>= 7; if (v) b |= 0x80; tok_b(b); } while (v); }
@@ -68,6 +68,7 @@ static void tok_put(uint8_t kind, uint64_t a, uint64_t b) { int na, nb; uint64_t
     case K_3D: { unsigned dir = mb == 0 ? (na ? 2 : 0) : ma == 0 ? (nb ? 3 : 1) : (!na && !nb) ? 4 : (na && !nb) ? 5 : (na && nb) ? 6 : 7; tok_u(((ma ? ma : mb) << 3) | dir); } break;
     case K_GD: tok_u((ma << 2) | (na ? 2 : 0) | 1); tok_u((mb << 1) | (uint64_t)nb); break;
     case K_REAL: tok_b(7); for (int i = 0; i < 8; i++) tok_b((uint8_t)(a >> (8 * i))); break;
+    case K_REALP: for (int i = 0; i < 8; i++) tok_b((uint8_t)(a >> (8 * i))); break;      /* type byte (7) already written as a K_BYTE */
   } }
 #endif
 #endif
